@@ -487,7 +487,8 @@ def r7_firefly(ctx):
                 interp.mstate["nevals"] = k + 1
                 items = None
                 if isinstance(sl, Vec):
-                    items = list(view_get(interp, sl))
+                    from absint import HRef as _HR
+                    items = [_HR(sl.vid, (sl.lo or 0) + i_) for i_ in range(len(view_get(interp, sl)))]     # (`&mut v[i..=i]`: a view of the vector - its elements by reference)
                 elif isinstance(sl, Agg) and sl.kind in ("slice", "array"):
                     items = list(sl.fields)
                 if items is None or len(items) != 1:
@@ -536,7 +537,7 @@ def r7_firefly(ctx):
                 continue
             p = paths[0]
             if p.end != "return" or not (isinstance(p.ret, Agg) and p.ret.variant == "Ok"):
-                bad.append((label, "does not complete (%s %s)" % (p.end, p.ret)))
+                bad.append((label, "does not complete (%s %s%s)" % (p.end, p.ret, ("; panics at %s" % [e.data for e in p.events if e.kind == "panic"][:2]) if p.end == "panic" else "")))
                 continue
             evd = p.mstate.get("evaluated", ())
             cv = statemodel.payload_of(store, p, EVALS, 7)
